@@ -947,7 +947,18 @@ func invariantFieldLoad(c *engine.Context, fn *ssa.Function, v ssa.Value) bool {
 	if !ok || ld.Op != token.MUL {
 		return false
 	}
-	fa, ok := ld.X.(*ssa.FieldAddr)
+	addr := ld.X
+	// an element of an array-valued field, at a constant position, is part of the field
+	if ia, ok := addr.(*ssa.IndexAddr); ok {
+		if _, isC := ia.Index.(*ssa.Const); isC {
+			if pt, ok := ia.X.Type().Underlying().(*types.Pointer); ok {
+				if _, isArr := pt.Elem().Underlying().(*types.Array); isArr {
+					addr = ia.X
+				}
+			}
+		}
+	}
+	fa, ok := addr.(*ssa.FieldAddr)
 	if !ok {
 		return false
 	}
@@ -1205,6 +1216,20 @@ func ruleLifo(c *engine.Context) *report.Rule {
 				case *ssa.UnOp:
 					if base, _, isBool := boolFieldLoad(x); isBool && len(fn.Params) > 0 && base == ssa.Value(fn.Params[0]) {
 						allowed = true
+					}
+					// a flag kept as an element, at a constant position, of an array field of the receiver
+					if x.Op == token.MUL && isBasicKind(x.Type().Underlying(), types.Bool) {
+						if ia, ok := x.X.(*ssa.IndexAddr); ok {
+							if _, isC := ia.Index.(*ssa.Const); isC {
+								if fa, ok := ia.X.(*ssa.FieldAddr); ok && len(fn.Params) > 0 && fa.X == ssa.Value(fn.Params[0]) {
+									if pt, ok := fa.Type().Underlying().(*types.Pointer); ok {
+										if _, isArr := pt.Elem().Underlying().(*types.Array); isArr {
+											allowed = true
+										}
+									}
+								}
+							}
+						}
 					}
 				case *ssa.BinOp:
 					if isSinkLenTest(p, x, sink) {
